@@ -6,7 +6,7 @@ from checks import _engine, C15_data, C15_text
 MANIFEST = dict(
     technique="Coq proof (refinement of the byte-exact value-operation model to a sequential interpreter; engine-level reply/refusal theorems) + differential correspondence checks (data layer and engine with value frames)",
     text="coq/Properties/C15*.v: for every sequence of constructor-built SET/UNSET/INCR/APPEND/SHIFT/PUSH frames the byte-exact model of ProcessLockData leaves exactly the value the sequential interpreter Spec.apply computes, never panics on the repaired semantics (for arbitrary frames), gated frames change nothing; engine level (coq/Properties/C15.v, any state): replies to a value-carrying lock / unlock / queue grant carry the value from immediately before the operation (named exceptions proved as such), refusals and queued requests leave the value unchanged, a successful request applies process_lock_data exactly once to the key's value and touches no other key. Ties: (i) checks/C15_data.py runs the real ProcessLockData / recover / ack / aof functions and the extracted model on several ten thousand steps per run (count in the evidence); (ii) this check runs whole lock/unlock histories carrying value frames on the real LockDB and on the engine model (which calls the same Data model) and diffs replies' data, stored value bytes, type and isAof after every action. Fix flags of the data model are re-derived from the source text on every run.",
-    note="Trusted: Coq kernel; models validated by the two correspondence checks; POP and PIPELINE-as-fold refinement are differential-tested but not proved; Redis-style text commands are decided by the sub-check checks/C15_text.py (coq/Kv: conversion + engine step + result writers composed into kv_step; theorem C15_text_refines_store_partial: replies equal a plain key-value store on the stated fragment; refutations for what lies outside; real TextServerProtocol on a pipe vs the extracted model + dict oracle). Known findings of the data layer are listed in known_findings/C15_data.json and C15.json.",
+    note="Trusted: Coq kernel; models validated by the two correspondence checks; POP and PIPELINE-as-fold refinement are differential-tested but not proved; Redis-style text commands are decided by the sub-check checks/C15_text.py (coq/Kv: conversion + engine step + result writers composed into kv_step; theorem C15_text_refines_store_partial: replies equal a plain key-value store on the stated fragment; refutations for what lies outside; real TextServerProtocol on a pipe vs the extracted model + dict oracle). Known findings are listed in known_findings/C15_data.json (value layer) and C15_text.json (Redis-style commands).",
 )
 PROFILES = [("core", 0.5), ("reentrant", 0.3), ("waiters", 0.2)]
 MONITORS = ["C15", "PANIC"]
